@@ -261,3 +261,95 @@ def val_str(v):
 def requires_satisfied(arg):
     from xdoctest import directive
     return directive._is_requires_satisfied(arg)
+
+
+# ============================================================ C05: the documented matching relation
+# Written from the property statement: identical texts match; otherwise both texts are normalised --
+# ANSI colour codes, string-prefix letters, (unless disabled) <BLANKLINE> markers in the WANT, trailing
+# whitespace; lines ending in a carriage return are invisible; whitespace runs collapse under
+# NORMALIZE_WHITESPACE (or IGNORE_WHITESPACE), all whitespace goes under IGNORE_WHITESPACE; surrounding
+# quotes are ignorable under NORMALIZE_REPR -- and compared exactly, or with '...' as a wildcard under ELLIPSIS.
+from specs.pyfuncs import re_sub
+
+ANSI_PATTERN = r'(\x9B|\x1B\[)[0-?]*[ -/]*[@-~]'
+UNICODE_PREFIX = r"(\W|^)[uU]([rR]?[\'\"])"
+BYTES_PREFIX = r"(\W|^)[bB]([rR]?[\'\"])"
+TRAILING_WS_PATTERN = r"[ \t]*$"
+BLANKLINE_PATTERN = '(?<=\n)<BLANKLINE>\n|<BLANKLINE>\n|\n<BLANKLINE>|<BLANKLINE>'
+IGNORECASE, MULTILINE = 2, 8
+
+
+def strip_ansi_spec(text):
+    return re_sub(ANSI_PATTERN, '', IGNORECASE, text)
+
+
+def remove_blankline_spec(text):
+    return re_sub(BLANKLINE_PATTERN, '\n', MULTILINE, text)
+
+
+def strip_prefixes(text):
+    return re_sub(BYTES_PREFIX, r'\1\2', 0, re_sub(UNICODE_PREFIX, r'\1\2', 0, text))
+
+
+def visible(text):
+    """Lines that end in a carriage return are overwritten on a terminal: they are dropped."""
+    return ''.join([line for line in text.splitlines(True) if not line.endswith('\r')])
+
+
+def collapse_ws(text):
+    return ' '.join(text.split())
+
+
+def delete_ws(text):
+    return re_sub(r'\s', '', MULTILINE, text)
+
+
+def norm_one(text, is_want, rs):
+    """The per-text part of the pipeline (everything but quote normalisation)."""
+    t = strip_prefixes(strip_ansi_spec(text))
+    if is_want and not rs_flag(rs, 'DONT_ACCEPT_BLANKLINE'):
+        t = remove_blankline_spec(t)
+    t = visible(re_sub(TRAILING_WS_PATTERN, '', MULTILINE, t).rstrip())
+    if rs_flag(rs, 'NORMALIZE_WHITESPACE') or rs_flag(rs, 'IGNORE_WHITESPACE'):
+        t = collapse_ws(t)
+    if rs_flag(rs, 'IGNORE_WHITESPACE'):
+        t = delete_ws(t)
+    return t
+
+
+def check_match(got, want, rs):
+    return got == want or (rs_flag(rs, 'ELLIPSIS') and ellipsis_match(got, want))
+
+
+def unquote(a, b, rs):
+    """a without its surrounding quotes if that (and only that) makes it match b."""
+    if check_match(a, b, rs):
+        return a
+    if a.startswith('"') and a.endswith('"') and check_match(substr(a, 1, len(a) - 2), b, rs):
+        return substr(a, 1, len(a) - 2)
+    if a.startswith("'") and a.endswith("'") and check_match(substr(a, 1, len(a) - 2), b, rs):
+        return substr(a, 1, len(a) - 2)
+    return a
+
+
+def norm_got(got, want, rs):
+    g = norm_one(got, False, rs)
+    if rs_flag(rs, 'NORMALIZE_REPR'):
+        return unquote(g, norm_one(want, True, rs), rs)
+    return g
+
+
+def norm_want(got, want, rs):
+    w = norm_one(want, True, rs)
+    if rs_flag(rs, 'NORMALIZE_REPR'):
+        return unquote(w, norm_got(got, want, rs), rs)
+    return w
+
+
+def match_def(got, want, rs):
+    """The relation of C05 (the uninterpreted S.match used by C02/C03 abstracts this definition)."""
+    if want == '':
+        return True
+    if got == want:
+        return True
+    return check_match(norm_got(got, want, rs), norm_want(got, want, rs), rs)
